@@ -205,6 +205,7 @@ func runC12(p *core.Program, r *core.Report) {
 		h.checkTableInstall()
 		h.checkReadOnly()
 		h.checkClear()
+		h.checkNoBlindReject()
 	}
 	c12Serial(p, r)
 	c12EnumWalk(p, r)
